@@ -623,6 +623,12 @@ func (ex *Exec) scanEffects(n ast.Node, vars map[types.Object]bool, eff *effects
 				}
 			}
 			if fc == nil {
+				if id, ok := fun.(*ast.Ident); ok && ex.pureCallbackField(id.Name) {
+					return true // deterministic callback: no effect
+				}
+				if sel, ok := fun.(*ast.SelectorExpr); ok && info.Selections[sel] != nil && info.Selections[sel].Kind() == types.FieldVal && ex.pureCallbackField(sel.Sel.Name) {
+					return true
+				}
 				if eff != nil {
 					eff.heapAll = true
 					if _, isFn := calleeOf(info, s).(*types.Func); !isFn {
